@@ -82,6 +82,22 @@ fn p_consume_count() {
     drop(child);
     assert!(count(&keep) == 1, "C07 back to the starting value");
 }
+//@ prefix=p_last kind=property clause=the context stays alive until the last derived object is gone: when the last holder (object or group) is dropped, the instance's destructor still runs with the context alive
+#[kani::proof]
+#[kani::unwind(3)]
+fn p_last_holder_drop_order() {
+    let id: u32 = kani::any();
+    let (keep, imp, ctx) = setup(id);
+    drop(keep); // the object is the only holder, as with a real plugin library
+    let group: bool = kani::any();
+    if group { let g = group_obj!((imp, ctx) as LeafGroup); assert!(g.leaf() == id); drop(g); }
+    else { let o = trait_obj!((imp, ctx) as Parent); assert!(o.ping() == id); drop(o); }
+    assert!(unsafe { COUNT_DURING_INSTANCE_DROP } != usize::MAX, "the instance was destroyed");
+    assert!(unsafe { COUNT_DURING_INSTANCE_DROP } >= 1, "C07 the context is still alive while the last object's instance is being destroyed");
+    assert!(unsafe { CTX_DROPPED } == 1, "C07 and it is released once the object is gone");
+    kani::cover!(group, "group");
+    kani::cover!(!group, "object");
+}
 //@ prefix=p_clone kind=property clause=clone of an object with context +1, opaque conversion +0, drops -1 each
 #[kani::proof]
 #[kani::unwind(3)]
